@@ -31,6 +31,17 @@ const INDEX_SHIFT: usize = TYPE_BITS;
 static DISCONTIGUOUS_SPACE_INDEX: AtomicUsize = AtomicUsize::new(DISCONTIG_INDEX_INCREMENT);
 const DISCONTIG_INDEX_INCREMENT: usize = 1 << TYPE_BITS;
 
+/// Verification hook: set the global discontiguous-descriptor counter (so that a harness can
+/// start every case from a known counter, including values next to the 64-bit wrap).
+#[cfg(feature = "mmtk_verif")]
+pub(crate) fn verif_set_discontiguous_index(v: usize) {
+    DISCONTIGUOUS_SPACE_INDEX.store(v, Ordering::Relaxed);
+}
+
+/// Verification hook: the initial value of the discontiguous-descriptor counter.
+#[cfg(feature = "mmtk_verif")]
+pub(crate) const VERIF_DISCONTIG_INDEX_INCREMENT: usize = DISCONTIG_INDEX_INCREMENT;
+
 #[derive(Copy, Clone, PartialEq, Debug)]
 #[repr(transparent)]
 pub struct SpaceDescriptor(usize);
